@@ -250,6 +250,16 @@ fn check_exit_status(ctx: &Ctx, judgements: &[DocJudgement], out: &mut Vec<Viola
                 None,
                 format!("summary says {}/{}/{} (succeeded/failed/skipped), expected {}/{}/{}", s, f, k, ns, nf, nk),
             ));
+            // the summary is what a person reads: a skipped document shown as failed (or the
+            // other way round) is also a statement about skipping
+            if k != nk {
+                out.push(v(
+                    "C15",
+                    "summary-miscounts-skipped",
+                    None,
+                    format!("summary says {} skipped, the run has {} skipped test cases ({}/{}/{} against {}/{}/{})", k, nk, s, f, k, ns, nf, nk),
+                ));
+            }
         }
     }
 }
@@ -449,7 +459,11 @@ fn check_env_cleanup(ctx: &Ctx, judgements: &[DocJudgement], out: &mut Vec<Viola
     }
 
     // clean-up: at scrut's exit, and again after the orphans have run on
-    if obs.exit_signal.is_some() || obs.sim_abort.is_some() || obs.exit_status == Some(97) {
+    // (SIGPIPE is different: that is how a run ends whose output nobody reads any more -
+    // `scrut test ... | head` -, an ordinary way to end; the unchanged tree ignores the signal,
+    // gets EPIPE and unwinds)
+    let died = obs.exit_signal.is_some() && obs.exit_signal != Some(13);
+    if died || obs.sim_abort.is_some() || obs.exit_status == Some(97) {
         // abort (e.g. stack overflow): no Drop runs, excluded by the property's wording of
         // "exits"; or the simulator stopped a scrut that would block forever (judged under C14)
         return;
